@@ -41,9 +41,13 @@ let run (casefile : string) (obsfile : string) =
            let key = dec (get "key") and raw = dec (get "raw") in
            let oracle = if get "E" = "-" then [] else
                List.map (fun p -> match String.split_on_char ':' p with [ c; k ] -> (c, bytes_of_hex k) | _ -> failwith "oracle") (String.split_on_char ',' (get "E")) in
+           (* the block cipher is the Coq AES model (Ble/Aes.v, FIPS-197) under the case's key; the
+              harness's table of crypto/aes outputs for the counter blocks is only cross-checked *)
            let missed = ref false in
-           let e (c : byte list) : byte list =
-             (try List.assoc (hex_of_bytes c) oracle with Not_found -> missed := true; List.init 16 (fun _ -> byte_of_int 0)) in
+           let e (c : byte list) : byte list = aes_encrypt key c in
+           List.iter (fun (c, k) ->
+               if hex_of_bytes (aes_encrypt key (bytes_of_hex c)) <> hex_of_bytes k then
+                 fail "JUDGE" ol ("crypto/aes output for counter block " ^ c ^ " differs from FIPS-197 AES")) oracle;
            let outcome = get "out" in
            if outcome = "P" then fail "JUDGE" ol "advertisement handling panicked";
            if get "mutated" = "1" then fail "JUDGE" ol "the handler modified the caller's manufacturer data";
